@@ -245,7 +245,9 @@ class C05(E1Prop):
                 H("prop_C05_n4", "prop_C05.cpp", shards=9, defines=["VF_GROUP=2"], flags=b),
                 H("prop_C05_stacks", "prop_C05.cpp", shards=14, defines=["VF_GROUP=3"], flags=b),
                 H("prop_C05_cuda_shim", "prop_C05.cpp", shards=4, defines=["VF_GROUP=4"], flags=b,
-                  extra_inc=[core.REPO + "/lib/cuda", core.HARNESS + "/cuda_shim"])]
+                  extra_inc=[core.REPO + "/lib/cuda", core.HARNESS + "/cuda_shim"]),
+                # conversions of different fields running at the same time, under ThreadSanitizer
+                H("tsan_ops_conv", "tsan_ops.cpp", shards=8, flags=TSAN, link_flags=["-fsanitize=thread"], env=dict(TSAN_ENV, VERIF_TSAN_OPS="conv"))]
 
 
 @prop("C12")
@@ -401,6 +403,10 @@ class C06(ZooProp):
     min_eval = 3000
     level_text = ("Round-trip property over generated stacks and adversarial bit patterns, tied to an independent reference parser/printer of the file "
                   "format so that a self-consistent but wrong writer/reader pair is visible.")
+
+    def harnesses(self, tier, seed=1):
+        # dumps and loads of different fields (own streams) running at the same time, under ThreadSanitizer
+        return super().harnesses(tier, seed) + [H("tsan_ops_io", "tsan_ops.cpp", shards=6, flags=TSAN, link_flags=["-fsanitize=thread"], env=dict(TSAN_ENV, VERIF_TSAN_OPS="io"))]
 
 
 @prop("C17")
@@ -568,6 +574,8 @@ REG["C20"] = _c20.C20()
 
 TSAN = ["-O1", "-g1", "-fsanitize=thread", "-fno-omit-frame-pointer"]
 TSAN_ENV = {"TSAN_OPTIONS": "halt_on_error=1:exitcode=66:report_signal_unsafe=0"}
+ENGINES.append({"name": "E6b", "path": "harness/tsan_ops.cpp", "serves_properties": ["C05", "C06"],
+                "kind_free_text": "generated workloads of whole-object operations (conversions; dump / load) on different fields running at the same time, under ThreadSanitizer, with the sequential result as value oracle"})
 ENGINES.append({"name": "E6", "path": "harness/tsan_C16.cpp", "serves_properties": ["C16"],
                 "kind_free_text": "generated multi-threaded lookup / disjoint-write workloads under ThreadSanitizer with a sequential run as value oracle and a racy positive control"})
 
